@@ -202,6 +202,12 @@ func runLearner(r *common.Run, sk *sink, caseNo int, store cluster.StoreKind, wa
 			sk.Violation("C02", "non-voting-applied-entry-lost-by-the-only-voter",
 				fmt.Sprintf("the non-voting replica applied proposal %d which the voting replica lost in the power loss", marker),
 				map[string]interface{}{"case": caseNo, "store": store.String(), "warm": warm, "delay_ms": delay.Milliseconds()})
+			// the same observation in terms of C01: the proposal never completed at its client (its
+			// host lost power) and took effect on one replica only - reads through the non-voting
+			// replica see it, reads through the voter never will
+			sk.Violation("C01", "proposal-takes-effect-on-the-non-voting-replica-only",
+				fmt.Sprintf("proposal %d ended without a result (power loss of the only voter), is visible to reads through the non-voting replica and absent on the voter: it did not take effect at a single point", marker),
+				map[string]interface{}{"case": caseNo, "store": store.String(), "warm": warm, "delay_ms": delay.Milliseconds()})
 		} else {
 			r.Inconclusive(fmt.Sprintf("case %d: replicas did not reach equal state within 15s after the restart (marker at non-voting %v, at voter %v)", caseNo, appliedMarker, voterHasMarker))
 		}
